@@ -35,6 +35,9 @@ CLAIMED["C02"] = ("metamorphic property testing: generated programs vs opacified
 CLAIMED["C03"] = ("metamorphic property testing over GC schedules (forced collections at evaluator safepoints via hook H1, freed arenas poisoned via hook H2), generated programs with cyclic/aliased/closure-held/embedder-set values, multi-call histories on one module",
     "Exploration: transcript, outcomes, final globals and extra_value must be identical with GC disabled, default, every k-th safepoint (k=1,2,3,7) and a generated safepoint mask; a dangling reference reads poison and crashes the isolated worker.",
     "Relies on cfg(starlark_verif) hooks H1/H2; only safepoints the evaluator itself offers are used.", "DESIGN.md §5 C03")
+CLAIMED["C04"] = ("property testing with generated exporting modules: round-trip oracle (host encoding, read-only catalogue before/after freeze through frozen and local observers) and a mutation catalogue attempted through every path to every reachable container from 1..3 importers",
+    "Exploration: every generated export must look the same after freezing (host API and in-language read-only catalogue) and every mutation through any path/accessor/closure/default argument must fail and leave the value unchanged.",
+    "The read-only and mutation catalogues are hand-written from the language operations listed in the property.", "DESIGN.md §5 C04")
 NOT_YET = {}
 
 def main():
